@@ -689,7 +689,11 @@ func (st *fstate) external(instr ssa.Instruction, f *ssa.Function, args []ssa.Va
 		mutArg(0)
 	case strings.HasPrefix(name, "(*sync.") || strings.HasPrefix(name, "(*bytes.Buffer)") || strings.HasPrefix(name, "(*math/big.Int)"):
 		// receiver-state updates of sync primitives / buffers / big ints: written cell is the receiver object
-		if strings.HasPrefix(name, "(*math/big.Int)") || strings.HasPrefix(name, "(*bytes.Buffer)") {
+		if strings.HasPrefix(name, "(*math/big.Int)") {
+			if !bigIntReadOnly[f.Name()] {
+				mutArg(0) // z.Op(x, y) style: the receiver is the destination
+			}
+		} else if strings.HasPrefix(name, "(*bytes.Buffer)") {
 			mutArg(0)
 		}
 	case inRepo(f) && f.Blocks == nil:
@@ -719,6 +723,14 @@ func (st *fstate) external(instr ssa.Instruction, f *ssa.Function, args []ssa.Va
 			}
 		}
 	}
+}
+
+// methods of *big.Int that only read their receiver
+var bigIntReadOnly = map[string]bool{
+	"Bit": true, "BitLen": true, "Sign": true, "Cmp": true, "CmpAbs": true, "Int64": true, "Uint64": true,
+	"IsInt64": true, "IsUint64": true, "String": true, "Text": true, "Bytes": true, "Bits": true,
+	"TrailingZeroBits": true, "ProbablyPrime": true, "Format": true, "Append": true, "Float64": true,
+	"MarshalText": true, "MarshalJSON": true, "GobEncode": true,
 }
 
 var opaqueReaders = map[string]bool{
